@@ -161,7 +161,7 @@ func (p *port) expandValue(cs []pcell, cb, fl, value []int, spl int) (int, []int
 			}
 			if cmpList(value, firstn(len(value), cb)) == -1 && cmpList(value, firstn(len(value), fl)) != 0 {
 				lastCutDepth = j - spl
-				return 1, value, spl
+				return 1, value, j + 1 // commit a4bdb37: singletonPrefixLength = j + 1
 			}
 		}
 	}
@@ -195,7 +195,7 @@ func (p *port) splitBin(cb, fl []int, ps pstate, i int) (bool, pstate) {
 			if lastCutDepth > 0 {
 				p.hit("late-cutoff-in-splitBin")
 			}
-			return true, pstate{cs, age, v, ps.spl}
+			return true, pstate{cs, age, v, s}
 		}
 		return false, pstate{cs, age, v, s}
 	}
@@ -315,7 +315,7 @@ func (p *port) refine(cb, fl []int, ps pstate) (bool, pstate) {
 				st, v, s := p.expandValue(all, cb, fl, value, spl)
 				if st == 1 {
 					p.hit("cutoff-in-refinement")
-					return true, pstate{all, ps.age, v, spl}
+					return true, pstate{all, ps.age, v, s}
 				}
 				value, spl = v, s
 			}
